@@ -34,6 +34,9 @@ class StubType:
     def py_getattr(self, name):
         if name == "__name__":
             return self.name
+        if self.ctor is None and not name.startswith("__"):
+            # a library type without a stub (IntervalIndex, ...): its class methods are outside the subset, not absent
+            raise Untranslatable(f"{self.lib}.{self.name}.{name}")
         raise Raised(AttributeError(name))
 
 
